@@ -121,6 +121,7 @@ PROPS = {
             R("h23", "c03", "TestC03_PublisherConcurrent", (300, 4, 600), (30000, 16, 3000)),
             R("h23", "c03", "TestC03_StreamHead", (120, 2, 600), (6000, 8, 3000)),
             R("h26", "c03w", "TestC03_Subscriber", (4000, 8, 500), (300000, 16, 10000)),
+            R("h26", "c03w", "TestC03_ConcurrentHeads", (400, 4, 400), (40000, 16, 10000)),
         ],
         "fuzz": [{"mod": "h23", "pkg": "c03", "target": "FuzzC03_Head", "secs": 300}],
     },
